@@ -121,7 +121,13 @@ def _material(r):
         return name, dict(ADSORBENTS[name])
     d = {"molecular_diameter": round(r.uniform(0.25, 0.4), 4), "polarizability": round(gen.log_uniform(r, 8e-4, 4e-3), 7), "magnetic_susceptibility": round(gen.log_uniform(r, 1e-8, 2e-7), 10),
          "surface_density": round(gen.log_uniform(r, 8e18, 5e19), -14)}
-    return d, d
+    # a user's dictionary comes in whatever key order it was written, possibly with a note in it
+    items = list(d.items())
+    r.shuffle(items)
+    arg = dict(items)
+    if r.random() < 0.3:
+        arg = dict([("comment", 0.0)] + items)
+    return arg, d
 
 
 def hk_slit_lnp(L, ads, mat, T):
